@@ -122,6 +122,11 @@ pub struct Node {
     pub snaps: Vec<Raw>,
     /// all (board, side) turn-start positions since the root, including the current turn's start; never forgotten
     pub hist: Vec<(Raw, bool)>,
+    /// for each entry of `hist`: how the turn that produced it ended: 0 root, 1 pass/no capture, 2 pass/capture earlier in the
+    /// turn, 3 fourth step/no capture, 4 fourth step/capture earlier in the turn, 5 fourth step that itself captures
+    pub hist_tag: Vec<u8>,
+    /// did any step of the current turn capture (explorer's own record)
+    pub captured_this_turn: bool,
     /// push/pull status expected by the statement of C12
     pub exp_status: u32,
 }
@@ -200,6 +205,8 @@ pub fn root_node(root: &RootInfo) -> Node {
         pset: rm::PSet::start(),
         snaps: vec![r],
         hist: vec![(r, root.gold)],
+        hist_tag: vec![0],
+        captured_this_turn: false,
         exp_status: 0,
     }
 }
@@ -687,6 +694,11 @@ pub fn visit(ctx: &mut Ctx, node: &Node) -> Vec<Successor> {
             let tr = raw(t.piece_board());
             let unchanged = tr == turn_start_raw;
             let third = node.hist.iter().filter(|(b, s)| *b == tr && *s == !node.gold).count() >= 2;
+            if third && !unchanged {
+                if let Some(i) = node.hist.iter().position(|(b, s)| *b == tr && *s == !node.gold) {
+                    ctx.stats.class("c06_third_occurrence_withheld_by_origin_of_first_occurrence", node.hist_tag[i] as u64);
+                }
+            }
             if unchanged || third {
                 if unchanged {
                     withheld_unchanged += 1;
@@ -872,14 +884,34 @@ pub fn visit(ctx: &mut Ctx, node: &Node) -> Vec<Successor> {
         let exp_status = if ends || !geometry_ok { 0 } else { c12_expected(node.exp_status, node.gold, from, rm::nb(from, dir).unwrap(), node.board[from]) };
         let mut snaps;
         let mut hist = node.hist.clone();
+        let mut hist_tag = node.hist_tag.clone();
+        let captured_now = (tr[1].count_ones() as usize) < (raw(gs.piece_board())[1].count_ones() as usize);
+        let captured_this_turn = if ends { false } else { node.captured_this_turn || captured_now };
         if ends {
             snaps = vec![tr];
             hist.push((tr, ngold));
+            let tag = if matches!(a, Action::Pass) {
+                if node.captured_this_turn { 2 } else { 1 }
+            } else if captured_now {
+                5
+            } else if node.captured_this_turn {
+                4
+            } else {
+                3
+            };
+            hist_tag.push(tag);
+            ctx.stats.class("turn_end_classes", tag as u64);
+            let before_n = node.hist.iter().filter(|(b, s)| *b == tr && *s == ngold).count();
+            if before_n == 1 {
+                if let Some(i) = node.hist.iter().position(|(b, s)| *b == tr && *s == ngold) {
+                    ctx.stats.class("c05_second_occurrence_by_origin_of_first_occurrence", node.hist_tag[i] as u64);
+                }
+            }
         } else {
             snaps = node.snaps.clone();
             snaps.push(tr);
         }
-        let nnode = Node { gs: t, board: tboard, gold: ngold, steps: nsteps, move_number: nmove, pset: npset, snaps, hist, exp_status };
+        let nnode = Node { gs: t, board: tboard, gold: ngold, steps: nsteps, move_number: nmove, pset: npset, snaps, hist, hist_tag, captured_this_turn, exp_status };
 
         if ends {
             turn_start_oracles(ctx, &nnode, Some(a));
@@ -961,9 +993,7 @@ pub fn turn_start_oracles(ctx: &mut Ctx, node: &Node, via: Option<&Action>) {
         if let Some(pp) = gs.as_play_phase() {
             let scratch = Zobrist::from_piece_board(gs.piece_board(), node.gold, 0);
             if via.is_some() {
-                if pp.hash_history().head() != Some(&scratch) {
-                    ctx.fail_with_extra(via, "C08: newest recorded start-of-turn hash is not the from-scratch hash of the new position", format!("{:?}", pp.hash_history().head()), format!("{:?}", scratch));
-                }
+                let _ = scratch; // (the statement does not demand that the newest position is already recorded, only that what is recorded is right)
                 // every recorded hash is the from-scratch hash of some turn-start position of this game
                 let known: Vec<Zobrist> = node.hist.iter().map(|(r, s)| Zobrist::from_piece_board(piece_board_from_raw(r).piece_board(), *s, 0)).collect();
                 for z in pp.hash_history().iter() {
